@@ -35,8 +35,9 @@ class K:
     kind = "kani"
 
     def __init__(self, crate, harness, tiers=("quick", "thorough"), timeout=900, mem_gb=10, cut=(), bounds="",
-                 unwind=None, expect="pass", what="", stubs_note="", replace=()):
+                 unwind=None, expect="pass", what="", stubs_note="", replace=(), unwindset=()):
         self.replace = tuple(replace)
+        self.unwindset = tuple(unwindset)   # (pretty-name regex, loop index, bound): per-loop unwinding
         self.crate, self.harness, self.tiers = crate, harness, tiers
         self.timeout, self.mem_gb, self.cut, self.bounds = timeout, mem_gb, tuple(cut), bounds
         self.unwind = unwind
@@ -179,7 +180,17 @@ def run_kani_obligation(ob, meta, workroot, budget, keep):
         if ob.replace and len(res["replaced"]) == 0:
             raise Inconclusive("goto-level stubs requested but no call was redirected (callee names changed?)")
         res["goto"] = goto
-        results, status, wall = kplus.cbmc(goto, res["unwind"], ob.timeout, ob.mem_gb * 1024 * 1024, log)
+        try:
+            pretty0 = json.load(open(meta["symtab"].replace(".symtab.out", ".pretty_name_map.json")))
+        except Exception:
+            pretty0 = {}
+        extra = []
+        for rx, idx, n in ob.unwindset:
+            for mangled, pn in pretty0.items():
+                if pn and re.search(rx, pn):
+                    extra += ["--unwindset", f"{mangled}.{idx}:{n}"]
+        res["cbmc_extra"] = extra
+        results, status, wall = kplus.cbmc(goto, res["unwind"], ob.timeout, ob.mem_gb * 1024 * 1024, log, extra=extra)
         res["solver_s"] = wall
         c = kplus.classify(results)
         res["checks"] = c["checks"]
@@ -215,7 +226,7 @@ def trace_for(ob, res, prop_name):
     """Re-run cbmc for one failing property with --trace, return concrete kani::any values."""
     log = os.path.join(res["workdir"], "log.txt")
     results, _, _ = kplus.cbmc(res["goto"], res["unwind"], ob.timeout, ob.mem_gb * 1024 * 1024, log, trace=True,
-                               extra=["--property", prop_name])
+                               extra=["--property", prop_name] + list(res.get("cbmc_extra", [])))
     for p in results:
         if p.get("property") == prop_name and p.get("status") == "FAILURE" and "trace" in p:
             return kplus.extract_concrete_vals(p["trace"])
@@ -289,7 +300,12 @@ def run_playback(path, keep=False):
         ran = re.search(r"running [1-9]\d* tests?", out or "") is not None
         failed = ran and re.search(r"test result: FAILED|panicked at|SIGABRT|SIGSEGV|signal: \d+", out or "") is not None
         rep.append(bool(failed))
-        outs.append(f"--- profile {prof}: rc={rc} ran={ran} failed={failed}\n" + "\n".join((out or "").splitlines()[-25:]))
+        lines = (out or "").splitlines()
+        msgs = []
+        for i, l in enumerate(lines):
+            if "panicked at" in l:
+                msgs.append(l.strip() + " :: " + (lines[i + 1].strip() if i + 1 < len(lines) else ""))
+        outs.append(f"--- profile {prof}: rc={rc} ran={ran} failed={failed}\n" + "\n".join(msgs[:3]) + "\n" + "\n".join(lines[-6:]))
     if not keep:
         shutil.rmtree(wd, ignore_errors=True)
     return rep[0], rep[1], "\n".join(outs)
